@@ -92,6 +92,16 @@ type sreg struct {
 	Svc string      `json:"svc,omitempty"` // the handler attaches its stream to this service scope (as library services do)
 }
 
+// splim is a per-peer limit of the host configuration: the resource manager applies it to EVERY
+// peer separately ("protocol X, peer P" / "service S, peer P" sub-scopes). These sub-scopes are not
+// reachable through the View API, so the limit is part of the configuration the host is built with
+// and the scope is judged through admission alone.
+type splim struct {
+	Scope string `json:"scope"` // protocol | service
+	Name  string `json:"name"`
+	Lim   slim   `json:"lim"`
+}
+
 type sstep struct {
 	Op string `json:"op"` // connect | disconnect | open | close | limit | collect | minute
 	// connect / disconnect: A dials / closes the connection to B. open: A opens to B.
@@ -104,6 +114,7 @@ type sstep struct {
 	Scope  string        `json:"scope,omitempty"`  // limit: protocol | peer | service
 	Name   string        `json:"name,omitempty"`   // limit: protocol ID | index of the peer host | service name
 	Lim    *slim         `json:"lim,omitempty"`
+	Burst  string        `json:"burst,omitempty"` // generator's note: the step belongs to a churn (open, close, open, close ...) or pile (open, open ...) run of one peer
 }
 
 func (s sstep) String() string {
@@ -126,8 +137,10 @@ type sscenario struct {
 	Hosts  int      `json:"hosts"`
 	Serves [][]sreg `json:"serves"` // per host: exact registrations, fixed for the case
 	Conns  [][2]int `json:"conns"`  // initial connections (dialer, listener)
-	Steps  []sstep  `json:"steps"`
-	Key    uint64   `json:"-"`
+	// per host: per-peer protocol / service limits of its resource manager's configuration
+	PeerLim [][]splim `json:"peer_lim,omitempty"`
+	Steps   []sstep   `json:"steps"`
+	Key     uint64    `json:"-"`
 }
 
 func (sc *sscenario) fingerprint() string {
@@ -165,7 +178,14 @@ type smodel struct {
 	gone     map[[2]int]bool       // (host, peer): the peer disconnected from the host and no collection ran at the host since
 	pairUsed map[[2]int][]protocol.ID
 	everConn map[[2]int]bool
+	closed   map[skey]int // per-peer sub-scope -> streams charged to it that have ended since
 }
+
+// per-peer sub-scope of a protocol / service scope
+func subKey(h int, kind, name string, p int) skey {
+	return skey{h, kind + "-peer", name + " peer h" + strconv.Itoa(p)}
+}
+func (k skey) sub() bool { return strings.HasSuffix(k.kind, "-peer") }
 
 func pk(a, b int) [2]int {
 	if a > b {
@@ -176,7 +196,16 @@ func pk(a, b int) [2]int {
 
 func newSModel(sc *sscenario) *smodel {
 	m := &smodel{nh: sc.Hosts, conn: map[[2]int]bool{}, limits: map[skey]slim{}, usedWith: map[skey]map[int]bool{}, stale: map[skey]map[int]bool{},
-		gone: map[[2]int]bool{}, pairUsed: map[[2]int][]protocol.ID{}, everConn: map[[2]int]bool{}}
+		gone: map[[2]int]bool{}, pairUsed: map[[2]int][]protocol.ID{}, everConn: map[[2]int]bool{}, closed: map[skey]int{}}
+	for h, ls := range sc.PeerLim {
+		for _, l := range ls {
+			for p := 0; p < sc.Hosts; p++ {
+				if p != h {
+					m.limits[subKey(h, l.Scope, l.Name, p)] = l.Lim
+				}
+			}
+		}
+	}
 	for _, regs := range sc.Serves {
 		s := map[protocol.ID]string{}
 		for _, r := range regs {
@@ -190,11 +219,11 @@ func newSModel(sc *sscenario) *smodel {
 // scopesOf lists the scopes st is charged to on the given end (while that end is open).
 func (st *sstream) scopesOf(opener bool) []skey {
 	if opener {
-		return []skey{{st.a, "protocol", string(st.proto)}, {st.a, "peer", strconv.Itoa(st.b)}}
+		return []skey{{st.a, "protocol", string(st.proto)}, {st.a, "peer", strconv.Itoa(st.b)}, subKey(st.a, "protocol", string(st.proto), st.b)}
 	}
-	out := []skey{{st.b, "protocol", string(st.proto)}, {st.b, "peer", strconv.Itoa(st.a)}}
+	out := []skey{{st.b, "protocol", string(st.proto)}, {st.b, "peer", strconv.Itoa(st.a)}, subKey(st.b, "protocol", string(st.proto), st.a)}
 	if st.svc != "" {
-		out = append(out, skey{st.b, "service", st.svc})
+		out = append(out, skey{st.b, "service", st.svc}, subKey(st.b, "service", st.svc, st.a))
 	}
 	return out
 }
@@ -241,29 +270,37 @@ type spred struct {
 	svc string
 	// refusals that apply
 	noCommon, openerPeer, openerProto, respPeer, respProto, service bool
+	// the per-peer part of the protocol / service scope (configured per-peer limits)
+	openerProtoPeer, respProtoPeer, servicePeer bool
 }
 
 func (p spred) ok() bool {
-	return !(p.noCommon || p.openerPeer || p.openerProto || p.respPeer || p.respProto || p.service)
+	return !(p.noCommon || p.openerPeer || p.openerProto || p.respPeer || p.respProto || p.service || p.openerProtoPeer || p.respProtoPeer || p.servicePeer)
 }
 
 // the opener's own scopes are consulted before NewStream returns
-func (p spred) mustFailAtNewStream() bool { return p.openerPeer || p.openerProto }
+func (p spred) mustFailAtNewStream() bool { return p.openerPeer || p.openerProto || p.openerProtoPeer }
 func (p spred) handlerMustNotRun() bool {
-	return p.noCommon || p.openerPeer || p.respPeer || p.respProto
+	return p.noCommon || p.openerPeer || p.respPeer || p.respProto || p.respProtoPeer
 }
 
 // the opener's protocol scope may be consulted after the responder has dispatched the stream (the
 // statement is silent about a handler that runs on a stream its opener gives up at once)
-func (p spred) handlerMayRun() bool  { return !p.handlerMustNotRun() && p.openerProto }
-func (p spred) handlerMustRun() bool { return !p.handlerMustNotRun() && !p.openerProto }
+func (p spred) handlerMayRun() bool {
+	return !p.handlerMustNotRun() && (p.openerProto || p.openerProtoPeer)
+}
+func (p spred) handlerMustRun() bool {
+	return !p.handlerMustNotRun() && !p.openerProto && !p.openerProtoPeer
+}
 func (p spred) String() string {
 	var s []string
 	for _, x := range []struct {
 		b bool
 		n string
 	}{{p.noCommon, "no common protocol"}, {p.openerPeer, "opener's peer scope is full"}, {p.openerProto, "opener's protocol scope is full"},
-		{p.respPeer, "responder's peer scope is full"}, {p.respProto, "responder's protocol scope is full"}, {p.service, "responder's service scope is full"}} {
+		{p.respPeer, "responder's peer scope is full"}, {p.respProto, "responder's protocol scope is full"}, {p.service, "responder's service scope is full"},
+		{p.openerProtoPeer, "opener's per-peer limit of the protocol is reached for the responder"}, {p.respProtoPeer, "responder's per-peer limit of the protocol is reached for the opener"},
+		{p.servicePeer, "responder's per-peer limit of the service is reached for the opener"}} {
 		if x.b {
 			s = append(s, x.n)
 		}
@@ -296,8 +333,11 @@ func (m *smodel) predict(a, b int, req []protocol.ID) spred {
 	p.P, p.svc = c[0], m.serves[b][c[0]]
 	p.openerProto = !m.admits(skey{a, "protocol", string(p.P)}, false)
 	p.respProto = !m.admits(skey{b, "protocol", string(p.P)}, true)
+	p.openerProtoPeer = !m.admits(subKey(a, "protocol", string(p.P), b), false)
+	p.respProtoPeer = !m.admits(subKey(b, "protocol", string(p.P), a), true)
 	if p.svc != "" {
 		p.service = !m.admits(skey{b, "service", p.svc}, true)
+		p.servicePeer = !m.admits(subKey(b, "service", p.svc, a), true)
 	}
 	return p
 }
@@ -341,12 +381,16 @@ func (m *smodel) apply(i int, s sstep, pred spred) {
 		st := &sstream{id: i, a: s.A, b: s.B, proto: pred.P, svc: pred.svc, openA: true, openB: true}
 		m.streams = append(m.streams, st)
 		for _, k := range st.scopesOf(true) {
-			m.mark(m.usedWith, k, s.B)
-			delete(m.stale[k], s.B)
+			if !k.sub() {
+				m.mark(m.usedWith, k, s.B)
+				delete(m.stale[k], s.B)
+			}
 		}
 		for _, k := range st.scopesOf(false) {
-			m.mark(m.usedWith, k, s.A)
-			delete(m.stale[k], s.A)
+			if !k.sub() {
+				m.mark(m.usedWith, k, s.A)
+				delete(m.stale[k], s.A)
+			}
 		}
 		if !containsID(m.pairUsed[pk(s.A, s.B)], pred.P) {
 			m.pairUsed[pk(s.A, s.B)] = append(m.pairUsed[pk(s.A, s.B)], pred.P)
@@ -355,11 +399,21 @@ func (m *smodel) apply(i int, s sstep, pred spred) {
 		var keep []*sstream
 		for _, st := range m.streams {
 			if st.id == s.Stream {
-				if s.Side != "handler" {
+				if s.Side != "handler" && st.openA {
 					st.openA = false
+					for _, k := range st.scopesOf(true) {
+						if k.sub() {
+							m.closed[k]++
+						}
+					}
 				}
-				if s.Side != "opener" {
+				if s.Side != "opener" && st.openB {
 					st.openB = false
+					for _, k := range st.scopesOf(false) {
+						if k.sub() {
+							m.closed[k]++
+						}
+					}
 				}
 			}
 			if st.openA || st.openB {
@@ -453,6 +507,43 @@ func drawLimit(rt *rapid.T, in, out int) *slim {
 	return l
 }
 
+// drawPeerLimit: a per-peer limit of the configuration, 1..3 streams in total and / or by direction.
+func drawPeerLimit(rt *rapid.T) slim {
+	n := func() int { return rapid.IntRange(1, 3).Draw(rt, "pp-n") }
+	l := slim{Total: -1, In: -1, Out: -1}
+	switch rapid.IntRange(0, 4).Draw(rt, "pp-shape") {
+	case 0, 1:
+		l.Total = n()
+	case 2:
+		l.In = n()
+	case 3:
+		l.In, l.Out = n(), n()
+	default:
+		l.Total, l.In = n(), n()
+	}
+	return l
+}
+
+// perPeerCap: the smallest per-peer limit value that applies to streams of P opened by a to b (99 = none).
+func (m *smodel) perPeerCap(a, b int, P protocol.ID) int {
+	c := 99
+	f := func(k skey, inbound bool) {
+		if l, ok := m.limits[k]; ok {
+			for _, v := range []int{l.Total, map[bool]int{true: l.In, false: l.Out}[inbound]} {
+				if v >= 0 {
+					c = min(c, v)
+				}
+			}
+		}
+	}
+	f(subKey(a, "protocol", string(P), b), false)
+	f(subKey(b, "protocol", string(P), a), true)
+	if svc := m.serves[b][P]; svc != "" {
+		f(subKey(b, "service", svc, a), true)
+	}
+	return c
+}
+
 func drawScopeScenario(rt *rapid.T) *sscenario {
 	sc := &sscenario{Key: rapid.Uint64().Draw(rt, "key")}
 	sc.Hosts = rapid.SampledFrom([]int{2, 3, 3, 3, 4}).Draw(rt, "hosts")
@@ -473,6 +564,23 @@ func drawScopeScenario(rt *rapid.T) *sscenario {
 			}
 		}
 		sc.Serves = append(sc.Serves, regs)
+	}
+	// per-peer limits of the hosts' configurations (two cases in three): small values, so that one
+	// peer reaches its share of a protocol / service within a few opens
+	sc.PeerLim = make([][]splim, nh)
+	if rapid.IntRange(0, 2).Draw(rt, "per-peer-limits") > 0 {
+		for h := 0; h < nh; h++ {
+			for _, p := range scopeProtos {
+				if (h == focusH && p == focusP && rapid.IntRange(0, 3).Draw(rt, "pp-focus") > 0) || rapid.IntRange(0, 3).Draw(rt, "pp-proto") == 0 {
+					sc.PeerLim[h] = append(sc.PeerLim[h], splim{Scope: "protocol", Name: string(p), Lim: drawPeerLimit(rt)})
+				}
+			}
+			for _, v := range scopeSvcs {
+				if rapid.IntRange(0, 3).Draw(rt, "pp-svc") == 0 {
+					sc.PeerLim[h] = append(sc.PeerLim[h], splim{Scope: "service", Name: v, Lim: drawPeerLimit(rt)})
+				}
+			}
+		}
 	}
 	m := newSModel(sc)
 	for a := 0; a < nh; a++ {
@@ -514,6 +622,7 @@ func drawScopeScenario(rt *rapid.T) *sscenario {
 		return rapid.SampledFrom(all).Draw(rt, label)
 	}
 	var last sstep
+	bursts := 0
 	for i, n := 0, rapid.IntRange(4, 16).Draw(rt, "nsteps"); i < n; i++ {
 		conn, _ := pairs(true)
 		disc, _ := pairs(false)
@@ -549,6 +658,18 @@ func drawScopeScenario(rt *rapid.T) *sscenario {
 			}
 		}
 		cands = append(cands, cand{"limit", 3}, cand{"collect", cw}, cand{"minute", 1})
+		if len(conn) > 0 && bursts < 2 {
+			// one peer opens (and closes) streams of one protocol over and over (at most two such runs
+			// per case, on top of the 4..16 steps); more often when the configuration has per-peer
+			// limits such a peer can run into
+			bw := 1
+			for _, ls := range sc.PeerLim {
+				if len(ls) > 0 {
+					bw = 5
+				}
+			}
+			cands = append(cands, cand{"burst", bw})
+		}
 		total := 0
 		for _, c := range cands {
 			total += c.w
@@ -649,6 +770,61 @@ func drawScopeScenario(rt *rapid.T) *sscenario {
 				}
 			}
 			pred = m.predict(s.A, s.B, s.Req)
+		case "burst":
+			// candidates: (opener, responder, protocol the responder serves) over connected pairs;
+			// those a per-peer limit applies to are preferred (3/4)
+			type bc struct {
+				a, b int
+				p    protocol.ID
+			}
+			var all, capped []bc
+			for _, pr := range conn {
+				for _, d := range [][2]int{{pr[0], pr[1]}, {pr[1], pr[0]}} {
+					for _, id := range scopeProtos {
+						if _, ok := m.serves[d[1]][id]; ok {
+							all = append(all, bc{d[0], d[1], id})
+							if m.perPeerCap(d[0], d[1], id) < 99 {
+								capped = append(capped, bc{d[0], d[1], id})
+							}
+						}
+					}
+				}
+			}
+			bursts++
+			i--
+			if len(all) == 0 {
+				continue
+			}
+			var c bc
+			if len(capped) > 0 && rapid.IntRange(0, 3).Draw(rt, "burst-capped") > 0 {
+				c = rapid.SampledFrom(capped).Draw(rt, "burst-target")
+			} else {
+				c = rapid.SampledFrom(all).Draw(rt, "burst-any")
+			}
+			n := m.perPeerCap(c.a, c.b, c.p)
+			if n == 99 {
+				n = rapid.IntRange(1, 3).Draw(rt, "burst-n")
+			}
+			kind := rapid.SampledFrom([]string{"churn", "churn", "pile"}).Draw(rt, "burst-kind")
+			n += rapid.IntRange(0, 1).Draw(rt, "burst-extra") // churn: as many rounds as the cap, or one more; pile: up to the cap, or beyond
+			if kind == "pile" {
+				n++
+			}
+			for j := 0; j < n; j++ {
+				o := sstep{Op: "open", A: c.a, B: c.b, Req: []protocol.ID{c.p}, Burst: kind}
+				pr := m.predict(o.A, o.B, o.Req)
+				id := len(sc.Steps)
+				m.apply(id, o, pr)
+				sc.Steps = append(sc.Steps, o)
+				last = o
+				if kind == "churn" && pr.ok() {
+					cl := sstep{Op: "close", Stream: id, Burst: kind, Side: rapid.SampledFrom([]string{"both", "both", "both", "both", "opener", "handler"}).Draw(rt, "burst-side")}
+					m.apply(len(sc.Steps), cl, spred{})
+					sc.Steps = append(sc.Steps, cl)
+					last = cl
+				}
+			}
+			continue
 		case "close":
 			st := m.streams[rapid.IntRange(0, len(m.streams)-1).Draw(rt, "stream")]
 			s.Stream = st.id
@@ -698,7 +874,7 @@ func drawScopeScenario(rt *rapid.T) *sscenario {
 				s.A = pickHost("host")
 			}
 		}
-		m.apply(i, s, pred)
+		m.apply(len(sc.Steps), s, pred)
 		sc.Steps = append(sc.Steps, s)
 		last = s
 	}
@@ -816,7 +992,32 @@ func runScopes(f failer, sc *sscenario) *outcome {
 	defer w.closePipes()
 	hosts := make([]*shost, sc.Hosts)
 	for i := range hosts {
-		n, err := newNode(w, "basic", keys.Ed(81+i), fmt.Sprintf("10.7.1.%d", i+1), true)
+		limits := rcmgr.InfiniteLimits
+		if i < len(sc.PeerLim) && len(sc.PeerLim[i]) > 0 {
+			// the documented way to configure limits: a partial configuration over the defaults
+			val := func(x int) rcmgr.LimitVal {
+				if x < 0 {
+					return rcmgr.Unlimited
+				}
+				if x == 0 {
+					return rcmgr.BlockAllLimit
+				}
+				return rcmgr.LimitVal(x)
+			}
+			part := rcmgr.PartialLimitConfig{ProtocolPeer: map[protocol.ID]rcmgr.ResourceLimits{}, ServicePeer: map[string]rcmgr.ResourceLimits{}}
+			for _, l := range sc.PeerLim[i] {
+				rl := rcmgr.ResourceLimits{Streams: val(l.Lim.Total), StreamsInbound: val(l.Lim.In), StreamsOutbound: val(l.Lim.Out)}
+				if l.Scope == "protocol" {
+					part.ProtocolPeer[protocol.ID(l.Name)] = rl
+					lab("config:per-peer-protocol-limit")
+				} else {
+					part.ServicePeer[l.Name] = rl
+					lab("config:per-peer-service-limit")
+				}
+			}
+			limits = part.Build(rcmgr.InfiniteLimits)
+		}
+		n, err := newNodeLimits(w, "basic", keys.Ed(81+i), fmt.Sprintf("10.7.1.%d", i+1), true, limits)
 		if err != nil {
 			f.Fatalf("harness: host %d: %v", i, err)
 		}
@@ -1092,6 +1293,61 @@ func runScopes(f failer, sc *sscenario) *outcome {
 			if err == nil && !contains(s.Req, P) {
 				f.Fatalf("%s: NewStream returned a stream bound to %q, which was not requested; history: %s", what, P, history())
 			}
+			if s.Burst != "" {
+				lab("burst:" + s.Burst)
+			}
+			// the per-peer sub-scopes this open goes through (configured per-peer limits)
+			if pred.P != "" {
+				subs := []struct {
+					k       skey
+					inbound bool
+					n       string
+				}{{subKey(s.A, "protocol", string(pred.P), s.B), false, "opener-protocol-peer"}, {subKey(s.B, "protocol", string(pred.P), s.A), true, "responder-protocol-peer"}}
+				if pred.svc != "" {
+					subs = append(subs, struct {
+						k       skey
+						inbound bool
+						n       string
+					}{subKey(s.B, "service", pred.svc, s.A), true, "responder-service-peer"})
+				}
+				for _, x := range subs {
+					l, ok := m.limits[x.k]
+					if !ok {
+						continue
+					}
+					oc.nontrivial = true
+					lab("open:through-a-per-peer-limit:" + x.n)
+					lowest := 99
+					for _, v := range []int{l.Total, map[bool]int{true: l.In, false: l.Out}[x.inbound]} {
+						if v >= 0 {
+							lowest = min(lowest, v)
+						}
+					}
+					if pred.ok() {
+						if in, out := m.count(x.k); in+out > 0 {
+							lab("open:admitted-by-a-per-peer-limit-that-counts-open-streams")
+						}
+						// the peer has ended at least as many streams in that sub-scope as it may hold at once:
+						// admitted only if ended streams are no longer charged there
+						if m.closed[x.k] >= lowest {
+							lab("open:admitted-after-the-peer-ended-at-least-its-per-peer-limit-of-streams:" + x.n)
+							if pred.svc != "" {
+								lab("open:admitted-after-the-peer-ended-at-least-its-per-peer-limit-of-streams:service-attached-handler")
+							}
+						}
+					}
+				}
+				// another peer is at its per-peer limit of this protocol on the responder right now
+				for p := 0; p < sc.Hosts; p++ {
+					if p != s.A && p != s.B && pred.ok() {
+						if k := subKey(s.B, "protocol", string(pred.P), p); !m.admits(k, true) {
+							if _, has := m.limits[k]; has {
+								lab("open:admitted-while-another-peer-is-at-its-per-peer-limit-of-the-protocol")
+							}
+						}
+					}
+				}
+			}
 			if lazy {
 				lab("path:lazy")
 			} else if err == nil {
@@ -1146,6 +1402,14 @@ func runScopes(f failer, sc *sscenario) *outcome {
 					}{{pred.openerPeer, "opener-peer"}, {pred.openerProto, "opener-protocol"}, {pred.respPeer, "responder-peer"}, {pred.respProto, "responder-protocol"}, {pred.service, "responder-service"}} {
 						if x.b {
 							lab("open:refused-by-run-time-limit:" + x.n)
+						}
+					}
+					for _, x := range []struct {
+						b bool
+						n string
+					}{{pred.openerProtoPeer, "opener-protocol-peer"}, {pred.respProtoPeer, "responder-protocol-peer"}, {pred.servicePeer, "responder-service-peer"}} {
+						if x.b {
+							lab("open:refused-by-per-peer-limit:" + x.n)
 						}
 					}
 				}
@@ -1338,6 +1602,104 @@ func TestScopesSmall(t *testing.T) {
 									stats.Sample(name, map[string]any{"scenario": sc, "trace": oc.trace})
 								}
 							}
+						}
+					}
+				}
+			}
+		}
+	}
+	stats.Exhaustive(name)
+}
+
+// TestPerPeerSmall enumerates a small domain of the per-peer dimension completely (a seed
+// independent floor). Three hosts A, B, C; all serve X; A and C are connected to B. One per-peer
+// limit of L = 1..3 streams is configured: on B for protocol X (total | inbound), on B for the
+// service B's handler of X attaches its streams to (total), or on A for protocol X (outbound).
+// History: A opens X to B and ends the stream (both ends | the opener, then the handler), L+1 times
+// over; A opens X until L streams are open and then `extra` = 1..2 more (refused: nothing may stay
+// charged anywhere); C opens X to B (another peer is not concerned); A's oldest stream ends; A
+// opens X once more (admitted). Every combination x B's handler of X attaches its streams to a
+// service or not.
+func TestPerPeerSmall(t *testing.T) {
+	name := t.Name()
+	const X = protocol.ID("/a/1.0.0")
+	const A, B, C = 0, 1, 2
+	wheres := []string{"B:protocol-peer:total", "B:protocol-peer:inbound", "B:service-peer:total", "A:protocol-peer:outbound"}
+	ends := []string{"both", "opener-then-handler"}
+	idx := 0
+	for svc := 0; svc < 2; svc++ {
+		for _, where := range wheres {
+			if svc == 0 && where == "B:service-peer:total" {
+				continue
+			}
+			for L := 1; L <= 3; L++ {
+				for _, end := range ends {
+					for extra := 1; extra <= 2; extra++ {
+						idx++
+						if !hx.Mine(idx) {
+							continue
+						}
+						bx := sreg{Pid: X}
+						if svc == 1 {
+							bx.Svc = "svc-1"
+						}
+						sc := &sscenario{Hosts: 3, Serves: [][]sreg{{{Pid: X}}, {bx}, {{Pid: X}}}, Conns: [][2]int{{A, B}, {C, B}}, Key: uint64(7000 + idx), PeerLim: make([][]splim, 3)}
+						switch where {
+						case "B:protocol-peer:total":
+							sc.PeerLim[B] = []splim{{"protocol", string(X), slim{Total: L, In: -1, Out: -1}}}
+						case "B:protocol-peer:inbound":
+							sc.PeerLim[B] = []splim{{"protocol", string(X), slim{Total: -1, In: L, Out: -1}}}
+						case "B:service-peer:total":
+							sc.PeerLim[B] = []splim{{"service", "svc-1", slim{Total: L, In: -1, Out: -1}}}
+						case "A:protocol-peer:outbound":
+							sc.PeerLim[A] = []splim{{"protocol", string(X), slim{Total: -1, In: -1, Out: L}}}
+						}
+						m := newSModel(sc)
+						for _, c := range sc.Conns {
+							m.apply(-1, sstep{Op: "connect", A: c[0], B: c[1]}, spred{})
+						}
+						add := func(s sstep) int {
+							var pred spred
+							if s.Op == "open" {
+								pred = m.predict(s.A, s.B, s.Req)
+							}
+							m.apply(len(sc.Steps), s, pred)
+							sc.Steps = append(sc.Steps, s)
+							return len(sc.Steps) - 1
+						}
+						for j := 0; j <= L; j++ {
+							id := add(sstep{Op: "open", A: A, B: B, Req: []protocol.ID{X}, Burst: "churn"})
+							if end == "both" {
+								add(sstep{Op: "close", Stream: id, Side: "both", Burst: "churn"})
+							} else {
+								add(sstep{Op: "close", Stream: id, Side: "opener", Burst: "churn"})
+								add(sstep{Op: "close", Stream: id, Side: "handler", Burst: "churn"})
+							}
+						}
+						oldest := -1
+						for j := 0; j < L+extra; j++ {
+							id := add(sstep{Op: "open", A: A, B: B, Req: []protocol.ID{X}, Burst: "pile"})
+							if j == 0 {
+								oldest = id
+							}
+						}
+						add(sstep{Op: "open", A: C, B: B, Req: []protocol.ID{X}})
+						add(sstep{Op: "close", Stream: oldest, Side: "both"})
+						add(sstep{Op: "open", A: A, B: B, Req: []protocol.ID{X}})
+						if in, _ := m.count(skey{B, "protocol", string(X)}); in != L+1 {
+							t.Fatalf("harness: the model holds %d inbound streams of X at B at the end, expected %d", in, L+1)
+						}
+						var oc *outcome
+						synctest.Test(t, func(t *testing.T) {
+							oc = runScopes(t, sc)
+						})
+						if oc == nil {
+							t.Fatalf("scenario %s failed", sc.fingerprint())
+						}
+						stats.CaseEnumerated(name, oc.nontrivial, sortedLabels(oc.labels, "per-peer-limit:"+where, fmt.Sprintf("per-peer-limit:%d", L), "stream-ends:"+end,
+							fmt.Sprintf("opens-beyond-the-limit:%d", extra), fmt.Sprintf("service-attached:%v", svc == 1))...)
+						if stats.WantSample(name) {
+							stats.Sample(name, map[string]any{"scenario": sc, "trace": oc.trace})
 						}
 					}
 				}
